@@ -17,6 +17,7 @@ PROP = dict(
         dict(module="GenServePipeline", cfg=dict(quick="GenServePipeline_mixed.cfg", thorough="GenServePipeline_mixed_thorough.cfg"), timeout=1200),
         dict(module="GenServePipeline", cfg="GenServePipeline_solo.cfg", timeout=600),
         dict(module="GenAccessorMemo", cfg=dict(quick="GenAccessorMemo_quick.cfg", thorough="GenAccessorMemo_thorough.cfg"), timeout=1200),
+        dict(module="GenAccessorMemo", cfg="GenAccessorMemo_fresh3.cfg", timeout=1200, tiers=["thorough"]),
     ],
     driver="c09",
     race=True,
